@@ -1400,6 +1400,15 @@ class Vmap(Generic[X, R], GFI[X, R]):
     axis_name: Const[str | None]
     spmd_axis_name: Const[str | None]
 
+    def _callee_in_axes(self, n_args: int) -> tuple:
+        """Per-argument axes of the callee's own arguments as a tuple, so that the
+        axes of the leading trace / choice arguments can be prepended. `in_axes`
+        may be an int (the default `0`), `None` or a sequence, as for `jax.vmap`."""
+        in_axes = self.in_axes.value
+        if in_axes is None or isinstance(in_axes, int):
+            return (in_axes,) * n_args
+        return tuple(in_axes)
+
     def simulate(
         self,
         *args,
@@ -1419,10 +1428,7 @@ class Vmap(Generic[X, R], GFI[X, R]):
         *args,
         **kwargs,
     ) -> tuple[Trace[X, R], Weight]:
-        if self.in_axes.value is None:
-            in_axes = (0,) + (None,) * len(args)
-        else:
-            in_axes = (0,) + self.in_axes.value
+        in_axes = (0,) + self._callee_in_axes(len(args))
         tr, w = modular_vmap(
             self.gen_fn.generate,
             in_axes=in_axes,
@@ -1438,10 +1444,7 @@ class Vmap(Generic[X, R], GFI[X, R]):
         *args,
         **kwargs,
     ) -> tuple[Density, R]:
-        if self.in_axes.value is None:
-            in_axes = (0,) + (None,) * len(args)
-        else:
-            in_axes = (0,) + self.in_axes.value
+        in_axes = (0,) + self._callee_in_axes(len(args))
         density, retval = modular_vmap(
             self.gen_fn.assess,
             in_axes=in_axes,
@@ -1458,10 +1461,7 @@ class Vmap(Generic[X, R], GFI[X, R]):
         *args,
         **kwargs,
     ) -> tuple[Trace[X, R], Weight, X | None]:
-        if self.in_axes.value is None:
-            in_axes = (0, 0) + (None,) * len(args)
-        else:
-            in_axes = (0, 0) + self.in_axes.value
+        in_axes = (0, 0) + self._callee_in_axes(len(args))
         new_tr, w, discard = modular_vmap(
             self.gen_fn.update,
             in_axes=in_axes,
@@ -1478,10 +1478,7 @@ class Vmap(Generic[X, R], GFI[X, R]):
         *args,
         **kwargs,
     ) -> tuple[Trace[X, R], Weight, X | None]:
-        if self.in_axes.value is None:
-            in_axes = (0, None) + (None,) * len(args)
-        else:
-            in_axes = (0, None) + self.in_axes.value
+        in_axes = (0, None) + self._callee_in_axes(len(args))
         new_tr, w, discard = modular_vmap(
             self.gen_fn.regenerate,
             in_axes=in_axes,
